@@ -588,9 +588,7 @@ def sequence_worlds_b(seq, res):
     per, edits = {}, []
     for k, (st, r) in enumerate(zip(seq["steps"], res["steps"])):
         if st["kind"] == "edit":
-            if "edit_raised" in r:
-                raise RuntimeError("an edit through the library's API raised: %r %r" % (st, r))
-            edits.append((st["edit"], bool(r.get("done"))))
+            edits.append((st["edit"], "raised:" + r["edit_raised"]["raised"] if "edit_raised" in r else bool(r.get("done"))))
             continue
         per.setdefault(r["epoch"], []).append((k, st, r))
     worlds, results = [], []
@@ -663,6 +661,15 @@ def build_alias_b(rng, n_states, calls_per_action):
             "features": sorted(aw.features), "tree": aw.domain_tree("dom")}
 
 
+def walk_apps(t, f):
+    if isinstance(t, list):
+        if t and t[0] == f:
+            yield t
+        else:
+            for x in t:
+                yield from walk_apps(x, f)
+
+
 def gen_keyed_world(rng, n_states=2, calls=6):
     """round 3 (requests/C02.md R2, finding D07): a function of arity 3 (and one of arity 2) applied to distinct parameters /
     constants in comparisons of the precondition; calls over a 2-3 element universe of one type, so that most calls repeat an object;
@@ -685,10 +692,21 @@ def gen_keyed_world(rng, n_states=2, calls=6):
     def app(f, n):
         return [f] + rng.sample(vs, n)
     conds = []
+    # wave 3: in a third of these worlds the conditions read the BINARY function only -- no key collision is possible there
+    # (C02_keyed_small_arity), so with a repeated object (g2 o1 o1) the answer must simply be right (outside the class of D07)
+    binary_only = rng.random() < 0.34
     for _ in range(rng.randint(1, 3)):
         kind = rng.randrange(4)
         op = rng.choice([">=", "<=", "<", ">"])
-        if kind == 0:
+        if binary_only:
+            w.features.add("binary-function-only")
+            if kind < 2:
+                conds.append([op, app("g2", 2), rng.choice(["1", "2", "3"])])
+            elif kind == 2:
+                conds.append([op, ["+", app("g2", 2), app("g2", 2)], rng.choice(["2", "4", "6"])])
+            else:
+                conds.append(["or", [op, app("g2", 2), "2"], [rng.choice([">=", "<"]), app("g2", 2), "4"]])
+        elif kind == 0:
             conds.append([op, app("k3", 3), rng.choice(["1", "2", "3"])])
         elif kind == 1:
             conds.append([op, app("g2", 2), app("k3", 3)])
@@ -712,6 +730,11 @@ def gen_keyed_world(rng, n_states=2, calls=6):
         rng.shuffle(combos)
         n3 = len(a["params"]) - 3
         rep = [c for c in combos if len(set(c[n3:])) < 3]
+        if binary_only:          # the two arguments of some (g2 ..) application bound to one object
+            pairs = [(x[1], x[2]) for cnd in conds for x in walk_apps(cnd, "g2")]
+            names = [pn for pn, _ in a["params"]]
+            rep2 = [c for c in combos if any(u in names and v in names and c[names.index(u)] == c[names.index(v)] for u, v in pairs)]
+            rep = rep2 + [c for c in rep if c not in rep2]
         chosen = rep[:max(1, (2 * calls) // 3)]
         chosen += [c for c in combos if c not in chosen][:calls - len(chosen)]
         nwhen, nuniv = count_groups(a)
@@ -811,7 +834,7 @@ def run(args):
              "scope_formulas": {}, "scope_rows": 0, "scope_rows_capped": 0, "scope_by_size": {},
              "formulas_with_both_truth_values": 0, "formulas_total": 0, "boundary_probes": {},
              "sequence_worlds": 0, "sequence_queries": 0, "sequence_queries_same_operator_object": 0, "sequence_edits_done": {},
-             "sequence_edits_without_effect": {}, "sequence_repeated_queries": 0, "sequence_repeated_queries_whose_answer_changed": 0}
+             "sequence_edits_without_effect": {}, "sequence_edits_that_raised": {}, "sequence_repeated_queries": 0, "sequence_repeated_queries_whose_answer_changed": 0}
     # Everything is evaluated in chunks and only what the decision rule needs is kept (failing cases, counts, hashes of the
     # non-trivial inputs): a thorough run has several hundred thousand probes.
     acc = {"failing": [], "verdicts": "", "passed": 0, "nontrivial": set(), "nontrivial_scope": 0,
@@ -894,7 +917,8 @@ def run(args):
                 if si == 0:
                     stats["sequence_worlds"] += 1
                     for kind, done in edits:
-                        row = stats["sequence_edits_done" if done else "sequence_edits_without_effect"]
+                        row = stats["sequence_edits_that_raised" if isinstance(done, str) else
+                                    "sequence_edits_done" if done else "sequence_edits_without_effect"]
                         row[kind] = row.get(kind, 0) + 1
                     last = {}
                     for wd1, r1 in zip(ws1, rs1):
@@ -997,6 +1021,21 @@ def run(args):
         "the same atom (C20's alias worlds, with states); worlds with a function of arity 3 and one of arity 2 in comparisons, calls with repeated objects, "
         "every ground fluent with its own value -- judged against the library's name-keyed view of the state (Model.KeyedState), spec failures there are the "
         "open finding D07.  "
+        "Wave 3: BOUNDARY OBJECT TABLES -- scope families F0empty (no object, no constant; actions without parameters, every forall vacuous), F0const / "
+        "F0const0 (no object, constant k - u; with two parameters / none), F0const2 (no object, constants k - u and k2 - t), F0constT (no object, one constant of "
+        "the upper type: forall over u vacuous), F1t / F1u (one object; type u without / with an inhabitant): thorough = all leaves and all two-leaf formulas x all "
+        "calls for F0empty F0const F0const0 F1t (sampled two-leaf formulas for the others); F2none / F0constnone / F0const0none: the same universes with Operators "
+        "built WITHOUT an object table (problem_objects=None is not the empty table {}: there a universal condition counts as true -- oracle = the precondition with "
+        "every forall erased, Corr.C02.erase_forall; model = is_applicable .. None); four more forall leaves in every family: a forall nested in a forall with two "
+        "variables, with the SAME variable twice, with the name of the parameter ?y twice, and an inner variable named like ?y.  Generated worlds: 24 (quick) / 240 "
+        "(thorough) boundary worlds -- a fresh leaf type tq whose inhabitants the generator controls (none at all / constants only / one object / object and "
+        "constant) under an empty, a one-element or an ordinary object table, universal preconditions over tq (plain, below an or, around / inside another "
+        "quantifier, the same variable name twice) and a forall-when effect over tq, calls binding constants where there is no object (counted per mode in "
+        "boundary_probes); one ordinary world in six has 0 or 1 objects; half of the universal conditions of the ordinary worlds get a nested universal condition "
+        "(half of those reuse the variable name); 16 / 150 worlds are answered again by Operators built with problem_objects=None.  PROCESS-LEVEL SEQUENCES "
+        "(20 / 150 worlds): one parsed Domain whose Action objects are edited in place through the library's API between applicability queries (add / remove a "
+        "precondition literal, a nested group, a numeric condition, effects, change_signature and back; fresh Operator or the same Operator object re-grounded); "
+        "every answer is judged against the schema as the library's exporter dumps it at that moment (counted: sequence_*).  "
         "A probe is non-trivial when its formula has >= 2 connectives and (scope) the run contains both a true and a false "
         "instance of that formula / (worlds) the state has facts; distinct by input hash.")
     cov["samples"] = [m["formula"] for j in jobs[:2] for m in j["meta"][:2]] + [acc["sample"]]
